@@ -22,6 +22,18 @@ RowPar == RowAll \ {[f |-> "mrag"]}
 RowBurst == {Par(2, TRUE)}
 RowFew == {[f |-> "mrag"], Par(1, FALSE), Par(2, TRUE)}
 PktAll == {"mrag", "desig"}
+\* a parity error in exactly the byte of column c
+Parc(c) == [f |-> "parc", col |-> c]
+ParcModes == {Parc(c) : c \in 0..12}         \* the columns ProgM1..3 address in row 1 (0..11) and a column nothing addresses
+ParcA == {Parc(2), Parc(3), Parc(7)}         \* ProgA, row 1: characters at columns 2 and 7
+ParcSim == {Parc(5), Parc(6), Parc(20), Parc(39)}
+RowFewA == {[f |-> "mrag"], Par(2, TRUE), Parc(2), Parc(3)}
+RowFewM == {[f |-> "mrag"], Par(2, TRUE), Parc(0), Parc(1), Parc(7)}     \* ProgM1: colour, G1 mosaic, character set designation; ProgA: a character at column 7
+RowAllSim == RowAll \cup ParcSim
+\* X/27/0: link control byte, each of the six links
+FlofAll == {[f |-> "lcb"]} \cup {[f |-> "link", k |-> k] : k \in 1..6}
+FlofFew == {[f |-> "lcb"], [f |-> "link", k |-> 2]}
+NoFlofFaults == {}
 TripAll == 1..13
 
 \* X/26/0 packets (TtxX26): rows ascending, columns ascending within a row
@@ -33,8 +45,21 @@ ProgC == <<RowT(1), ChT(0, 16, 72), ChT(1, 16, 105), ChT(3, 15, 39), ChT(9, 16, 
            ChT(11, 15, 63), ChT(20, 16, 85), ChT(21, 16, 86), ChT(22, 16, 87), ChT(37, 16, 120), ChT(38, 16, 121), ChT(39, 16, 122)>>
 ProgD == <<RowT(1), ChT(4, 16, 68), RowT(2), ChT(4, 16, 69), RowT(3), ChT(4, 16, 70), RowT(4), ChT(4, 15, 48),
            RowT(5), ChT(4, 16, 71), RowT(6), ChT(4, 16, 74), TermT>>
+\* every mode of the column address group once, at row 1 columns 0..11 (data: a code >= 32 every character mode accepts;
+\* for the modes with a diacritical mark a combination ISO 10646 has precomposed)
+ProgM1 == <<RowT(1), ChT(0, 0, 3), ChT(1, 1, 53), ChT(2, 2, 45), ChT(3, 3, 4), ChT(4, 4, 0), ChT(5, 5, 0),
+            ChT(6, 7, 1), ChT(7, 8, 36), ChT(8, 9, 77), ChT(9, 10, 0), ChT(10, 11, 45), ChT(11, 12, 64)>>
+ProgM2 == <<RowT(1), ChT(0, 13, 65), ChT(1, 14, 1), ChT(2, 15, 35), ChT(3, 16, 65), ChT(4, 17, 97), ChT(5, 18, 101),
+            ChT(6, 19, 111), ChT(7, 20, 110), ChT(8, 21, 97), ChT(9, 22, 97), ChT(10, 23, 99), ChT(11, 24, 117)>>
+ProgM3 == <<RowT(1), ChT(0, 26, 97), ChT(1, 27, 99), ChT(2, 29, 111), ChT(3, 30, 97), ChT(4, 31, 115), ChT(5, 12, 1),
+            ChT(6, 14, 3), ChT(7, 8, 0), ChT(8, 0, 7), ChT(9, 3, 1), ChT(10, 7, 2), ChT(11, 9, 90)>>
+ProgM4 == <<RowT(1), ChT(0, 6, 53), ChT(1, 0, 5), ChT(2, 16, 66), ChT(3, 14, 2), ChT(5, 15, 49), ChT(6, 12, 16), ChT(8, 2, 60),
+            TermT, TermT, TermT, TermT, TermT>>
+ProgsModes == <<ProgM1, ProgM2, ProgM3, ProgM4>>
 ProgsAll == <<ProgA, ProgB, ProgC, ProgD>>
 ProgsAB  == <<ProgA, ProgB>>
+ProgsSim == <<ProgA, ProgB, ProgM1>>
+ProgsAM  == <<ProgA, ProgM1>>
 ProgsA   == <<ProgA>>
 NoProgs  == <<>>
 
@@ -42,7 +67,11 @@ NoProgs  == <<>>
 mcview == <<mode, open, lastm, cache, term, Len(flts), npk, lastAct>>
 
 \* the rule of TtxX26 for a lost triplet, for every packet and position
-ASSUME ProgsAllOK == \A e \in 1..Len(ProgsAll) : WellFormed(ProgsAll[e])
+ASSUME ProgsAllOK == /\ \A e \in 1..Len(ProgsAll) : WellFormed(ProgsAll[e])
+                     /\ \A e \in 1..Len(ProgsModes) : WellFormed(ProgsModes[e])
+\* the packets ProgM1..4 together use every mode of the column address group except the two diacritical marks libzvbi's
+\* character repertoire has no composed letters for (25 dot below, 28 underline: shown as U+0000, not a matter of C03)
+ASSUME AllModes == {ProgsModes[e][j].m : e \in 1..4, j \in 2..8} \cup {ProgsModes[e][j].m : e \in 1..3, j \in 9..13} = (0..31) \ {25, 28}
 RuleRest    == \A e \in 1..Len(ProgsAll), j \in 0..13 : NotMisplaced(ProgsAll[e], j, "rest")
 RuleTriplet == npk >= 0 /\ \A e \in 1..Len(ProgsAll), j \in 0..13 : NotMisplaced(ProgsAll[e], j, "triplet")   \* violated: negative test
 =============================================================================
